@@ -272,8 +272,15 @@ def run_adaptive(case):
     else:
         sa, op = build(case, f, grid=_es_grid(case))
     case = dict(case, maxsteps=30)      # depth guard: targeted tapes would otherwise refine below double precision
-    res, _ = drive.run_history(sa, case, before_refine=before_refine, after_refine=after_refine, clean_stop=True,
-                               reevaluate_at_end=False)
+    store = {} if case["fseed"] % 3 == 0 else None
+    expected_store = {}
+
+    def on_eval(k):
+        if store is not None:
+            with drive.quiet():
+                expected_store[int(sa.get_total_num_points())] = np.array(sa.operation.get_result(), dtype=float)
+    res, _ = drive.run_history(sa, case, on_eval=on_eval, before_refine=before_refine, after_refine=after_refine, clean_stop=True,
+                               reevaluate_at_end=False, **({} if store is None else dict(solutions_storage=store)))
     if res is None:
         out.cls("ended-by-step-cap")    # no regular stop was reached within 30 steps: nothing is reported by the library
         return out
@@ -304,6 +311,14 @@ def run_adaptive(case):
         return reported, tot, mag, tag
 
     reported, tot, mag, tag = check_stop(res, "first")
+    # documented driver option solutions_storage: the result of every evaluation, keyed by the point count of that evaluation
+    if store is not None:
+        for key, val in expected_store.items():
+            if key not in store or not _close(store[key], val, mag):
+                out.bad(sub + "/solutions_storage/entry-is-not-the-result-of-its-evaluation", "%s: entry for %d points holds %s, the result of that evaluation was %s" % (
+                    tag, key, store.get(key), val))
+                break
+        out.cls("solutions_storage-checked")
     if case.get("extra", 0) and not out.violations:
         # query at one stop, continue the SAME object with larger limits, query again: the publicly exposed points and
         # weights and the component sums must describe the NEW stop
